@@ -37,6 +37,8 @@ EXHAUSTIVE_NOTE = {"quick": "6x7x7 verdict table x (4 prompts x cache on/off + 3
 
 _POOL = ["", "deploy", "deploy ", "Deploy", "a" * 300, "delete all", "x", "café ☃", "bulk-0", "bulk-1", "bulk-500", "bulk-1000",
          # near-duplicates that differ only in characters an encoder / normaliser might drop or fold: every one is a different request
+         # two different prompts with the same MD5 (public single-block text collision): a cache keyed on a weak or truncated digest confuses them
+         "TEXTCOLLBYfGiJUETHQ4hAcKSMd5zYpgqf1YRDhkmxHkhPWptrkoyz28wnI9V0aHeAuaKnak", "TEXTCOLLBYfGiJUETHQ4hEcKSMd5zYpgqf1YRDhkmxHkhPWptrkoyz28wnI9V0aHeAuaKnak",
          "caf\u00e9 ☃", "cafe\u0301 ☃", "de\u200bploy", "deploy\x00", "\ud800deploy", "dep\udc80loy", "deploy\udfff", "delete\u00a0all", "ｄｅｐｌｏｙ", "DEPLOY", " deploy", "deploy\n"]
 _prompt = st.one_of(st.sampled_from(_POOL), st.text(max_size=20))
 _conf = st.sampled_from([0.9, 0.9, 0.0, 1.0, 0.5])
@@ -61,6 +63,12 @@ def strategy(tier):
 
 
 def enumerate_cases(tier):
+    A_ = "TEXTCOLLBYfGiJUETHQ4hAcKSMd5zYpgqf1YRDhkmxHkhPWptrkoyz28wnI9V0aHeAuaKnak"
+    B_ = "TEXTCOLLBYfGiJUETHQ4hEcKSMd5zYpgqf1YRDhkmxHkhPWptrkoyz28wnI9V0aHeAuaKnak"
+    for logic in LOGICS:
+        for first, second in ((A_, B_), (B_, A_), ("deploy\udc80", "deploy"), ("deploy", "deploy\udc80"), ("caf\u00e9", "cafe\u0301")):
+            yield {"logic": logic, "cache": True, "reqs": [[first, "EXECUTE", "PERMIT"], [second, "EXECUTE", "BLOCK"], [first, "BLOCK", "BLOCK"]]}
+            yield {"logic": logic, "cache": False, "reqs": [[first, "EXECUTE", "PERMIT"], [second, "EXECUTE", "PERMIT"]]}
     for logic in LOGICS:
         for bulk in (999, 1000, 1001):
             yield {"logic": logic, "cache": True, "bulk": bulk,
